@@ -322,6 +322,23 @@ class Check:
         """Corpus first, then the generated histories; shrink and report the first few divergences
         (API-visible ones preferred).  Returns the number of problems seen."""
         allh = [ls for name, ls in self.corpus() if corpus_prefix is None or name.startswith(corpus_prefix + "-") or name.startswith("all-")] + list(histories)
+        if self.replay:
+            # --replay FILE: run only the script of that file, on the comparison whose tag is in its name
+            base = os.path.basename(self.replay)
+            if base.startswith(self.prop + "-") and ("-%s-" % tag) not in base:
+                return 0
+            txt = open(self.replay if os.path.isabs(self.replay) else os.path.join(VERIF, self.replay)).read()
+            if "#--- script" in txt:
+                body = txt.split("#--- script", 1)[1].split("#---", 1)[0]
+            else:
+                body = txt
+            allh = [[l for l in body.splitlines() if l.strip() and not l.startswith("#")]]
+            d = self.diverges(exe, component, allh[0], impl_args, model_args, env)
+            print("REPLAY %s on %s: %s" % (base, os.path.basename(exe), "model and implementation agree" if d is None else "DIVERGES (%s)" % d[0]))
+            if d is not None:
+                for a, b in zip(d[1], d[2]):
+                    if a != b:
+                        print("  implementation: " + a[:400]); print("  model:          " + b[:400]); break
         problems = []
         for i in range(0, len(allh), chunk):
             part = allh[i:i + chunk]
